@@ -5585,6 +5585,10 @@ xpath_true(struct lyxp_set **UNUSED(args), uint32_t UNUSED(arg_count), struct ly
 static LY_ERR
 xpath_pi_node(struct lyxp_set *set, enum lyxp_axis axis, uint32_t options)
 {
+    if (options & LYXP_SKIP_EXPR) {
+        return LY_SUCCESS;
+    }
+
     if (options & LYXP_SCNODE_ALL) {
         return moveto_scnode(set, NULL, NULL, axis, options);
     }
